@@ -310,7 +310,7 @@ PURITY = {
     # vectors per program; gc_every: full retention check (gc.collect + weakrefs) every n-th twin
     "tiny": dict(programs=36, max_runs=4, gc_every=8, abandon=20, deadline=20.0),
     "quick": dict(programs=38, max_runs=6, gc_every=8, abandon=30, deadline=36.0),
-    "thorough": dict(programs=900, max_runs=12, gc_every=1, abandon=400, deadline=430.0),
+    "thorough": dict(programs=800, max_runs=12, gc_every=1, abandon=400, deadline=430.0),
 }
 
 
@@ -394,7 +394,10 @@ def _abandon_case(prog, k, baseline):
             return None
         mgrs = [e[0] for lst in R.truth.values() for e in lst]
         if not mgrs:
-            g.close()
+            try:
+                g.close()
+            except BaseException:
+                pass
             g = None
             return None
         refs = [weakref.ref(g)]
@@ -656,13 +659,17 @@ def leg_purity(tier="quick", seed=0):
                         truncated = True
                         break
                     for k in range(3):
-                        r = _abandon_case(prog, k, True)
+                        try:
+                            r = _abandon_case(prog, k, True)
+                            alive = _abandon_case(prog, k, False) if r is not None and not r[0] else None
+                        except Exception:
+                            col.count("abandon_errors")
+                            break
                         if r is None:
                             continue
                         if r[0]:
                             col.count("abandon_baseline_uncollectable")
                             break
-                        alive = _abandon_case(prog, k, False)
                         col.evaluations += 1
                         col.count("abandon_checks")
                         if alive and alive[0]:
